@@ -53,6 +53,9 @@ pub struct Sim {
     /// set when the model could not predict a statement that the engine then executed: the run
     /// stops there (no verdict on anything later)
     pub halted: bool,
+    /// sessions whose transaction was aborted by VACUUM (by design): their statements may fail
+    /// or succeed, but nothing they write may ever become visible
+    pub zombies: std::collections::BTreeSet<u32>,
 }
 
 fn outcome_line(o: &Out) -> String {
@@ -67,7 +70,7 @@ impl Sim {
         let eng = Eng::create(dir, cfg)?;
         let mut stats = RunStats::default();
         stats.fingerprint = 0xcbf29ce484222325;
-        Ok(Sim { eng, model: Model::new(), txmap: BTreeMap::new(), stats, began_at: BTreeMap::new(), commits_seen: 0, allow_oom: false, allow_d26: false, halted: false })
+        Ok(Sim { eng, model: Model::new(), txmap: BTreeMap::new(), stats, began_at: BTreeMap::new(), commits_seen: 0, allow_oom: false, allow_d26: false, halted: false, zombies: Default::default() })
     }
 
     fn viol(&self, oracle: &str, i: usize, detail: String) -> Violation {
@@ -117,6 +120,9 @@ impl Sim {
                 let out = self.eng.exec(&stmt.sql());
                 self.stats.log(format!("{i} {} => {}", ev.short(), outcome_line(&out)));
                 self.stats.bump(if stmt.is_read() { "auto_reads" } else { "auto_writes" });
+                if stmt.is_ddl() {
+                    self.stats.bump("ddl_autocommit");
+                }
                 let res = self.compare(i, &exp, &out);
                 if exp == Expect::Any && !out.is_err() && !matches!(stmt, Stmt::Raw(_)) {
                     self.halted = true;
@@ -218,11 +224,23 @@ impl Sim {
                 }
                 Ok(())
             }
+            Event::Exec(k, stmt) if self.zombies.contains(k) => {
+                let out = self.eng.sexec(*k, &stmt.sql());
+                self.stats.log(format!("{i} {} (transaction aborted by VACUUM) => {}", ev.short(), if out.is_err() { "ERR" } else { "ok" }));
+                self.stats.bump("statements_in_vacuum_aborted_sessions");
+                if let Out::Err(ErrClass::Internal, m) = &out {
+                    return Err(self.viol("O-res", i, format!("statement in a session aborted by VACUUM failed internally: {m}")));
+                }
+                Ok(())
+            }
             Event::Exec(k, stmt) => {
                 let Some(&tx) = self.txmap.get(k) else { return Ok(()) };
                 let exp = self.model.run(tx, stmt, false);
                 let out = self.eng.sexec(*k, &stmt.sql());
                 self.stats.log(format!("{i} {} => {}", ev.short(), outcome_line(&out)));
+                if stmt.is_ddl() {
+                    self.stats.bump("ddl_in_session");
+                }
                 if stmt.is_read() {
                     self.stats.bump("session_reads");
                     if self.commits_seen > *self.began_at.get(k).unwrap_or(&0) {
@@ -242,6 +260,18 @@ impl Sim {
                     self.stats.bump("failed_statements_in_session");
                 }
                 res
+            }
+            Event::Commit(k) if self.zombies.contains(k) => {
+                self.zombies.remove(k);
+                self.txmap.remove(k);
+                self.began_at.remove(k);
+                let out = self.eng.commit(*k);
+                self.stats.log(format!("{i} {} (transaction aborted by VACUUM) => {}", ev.short(), if out.is_err() { "ERR" } else { "ok" }));
+                self.stats.bump("commits_of_vacuum_aborted_sessions");
+                if let Out::Err(ErrClass::Internal, m) = &out {
+                    return Err(self.viol("O-commit", i, format!("commit of a session aborted by VACUUM failed internally: {m}")));
+                }
+                Ok(())
             }
             Event::Commit(k) => {
                 let Some(tx) = self.txmap.remove(k) else { return Ok(()) };
@@ -279,10 +309,18 @@ impl Sim {
             Event::Abort(k) => {
                 let Some(tx) = self.txmap.remove(k) else { return Ok(()) };
                 self.began_at.remove(k);
+                let was_zombie = self.zombies.remove(k);
                 let out = self.eng.abort(*k);
                 self.stats.log(format!("{i} {} => {}", ev.short(), outcome_line(&out)));
                 self.model.abort(tx);
                 self.stats.bump("rollbacks");
+                if was_zombie {
+                    // the transaction was already aborted by VACUUM: the answer is free, but not an internal failure
+                    if let Out::Err(ErrClass::Internal, m) = &out {
+                        return Err(self.viol("O-res", i, format!("ROLLBACK of a session aborted by VACUUM failed internally: {m}")));
+                    }
+                    return Ok(());
+                }
                 if out.is_err() {
                     return Err(self.viol("O-res", i, format!("ROLLBACK failed: {}", out.short())));
                 }
@@ -291,6 +329,7 @@ impl Sim {
             Event::DropSession(k) => {
                 let Some(tx) = self.txmap.remove(k) else { return Ok(()) };
                 self.began_at.remove(k);
+                self.zombies.remove(k);
                 self.eng.drop_session(*k);
                 self.stats.log(format!("{i} {}", ev.short()));
                 self.model.abort(tx);
@@ -298,7 +337,14 @@ impl Sim {
                 Ok(())
             }
             Event::Vacuum => {
-                self.close_sessions();
+                // by design VACUUM aborts every open transaction; the session handles stay
+                let ks: Vec<u32> = self.txmap.keys().copied().collect();
+                for k in ks {
+                    let tx = self.txmap[&k];
+                    self.model.abort(tx);
+                    self.zombies.insert(k);
+                    self.stats.bump("sessions_open_across_vacuum");
+                }
                 let out = self.eng.vacuum();
                 self.stats.log(format!("{i} VACUUM => {}", if out.is_err() { outcome_line(&out) } else { "OK".into() }));
                 self.stats.bump("vacuums");
@@ -346,6 +392,7 @@ impl Sim {
     }
 
     fn close_sessions(&mut self) {
+        self.zombies.clear();
         let ks: Vec<u32> = self.txmap.keys().copied().collect();
         for k in ks {
             let tx = self.txmap.remove(&k).unwrap();
